@@ -146,6 +146,13 @@ def build_simple_pt(case):
         shape = (left, right, d * d) if case["rank"] == 3 else (
             left, right, d * d, d * d)
         t = (rng.normal(size=shape) + 1j * rng.normal(size=shape)) / chi
+        lay = case.get("layout", "c")
+        if lay == "f":
+            t = np.asfortranarray(t)
+        elif lay == "view":
+            # a transposed view of a differently ordered buffer
+            t = np.ascontiguousarray(np.moveaxis(t, 0, -1))
+            t = np.moveaxis(t, -1, 0)
         pt.set_mpo_tensor(k, t)
     if case.get("caps", True) == "custom":
         # caps set by hand, including a closing cap that is not [1.0]
